@@ -71,6 +71,10 @@ pub struct Workspace {
     pub libcnb: Vec<LibcnbBp>,
     pub composites: Vec<Composite>,
     pub other_buildpack_dir: bool,
+    /// a second foreign directory whose buildpack.toml libcnb-data rejects:
+    /// 0 none, 1 order+targets, 2 unknown keys, 3 not TOML at all
+    #[serde(default)]
+    pub odd_foreign_descriptor: u8,
     pub release: bool,
     pub pkg_dir: PkgDir,
     pub from: From,
@@ -170,6 +174,7 @@ pub fn generate(seed: u64, tier: &str, index: u64) -> Workspace {
         libcnb,
         composites,
         other_buildpack_dir,
+        odd_foreign_descriptor: if r.chance(1, 2) { 1 + r.below(3) as u8 } else { 0 },
         release: r.chance(1, 4),
         pkg_dir: match r.below(4) {
             0 | 1 => PkgDir::Default,
@@ -250,6 +255,17 @@ pub fn materialise(w: &Workspace, base: &Path) -> std::io::Result<Layout> {
         std::fs::create_dir_all(d.join("bin"))?;
         std::fs::write(d.join("buildpack.toml"), "api = \"0.10\"\n\n[buildpack]\nid = \"other/shell\"\nversion = \"0.0.1\"\n")?;
         std::fs::write(d.join("bin/build"), "#!/bin/sh\n")?;
+    }
+    if w.odd_foreign_descriptor != 0 {
+        // Somebody else's buildpack in the workspace tree: it must simply not be packaged.
+        let d = ws.join("third-party/odd-bp");
+        std::fs::create_dir_all(&d)?;
+        let text = match w.odd_foreign_descriptor {
+            1 => "api = \"0.10\"\n\n[buildpack]\nid = \"third/party\"\nversion = \"1.0.0\"\n\n[[order]]\n[[order.group]]\nid = \"x/y\"\nversion = \"1.0.0\"\n\n[[targets]]\nos = \"linux\"\n",
+            2 => "api = \"0.10\"\nfuture-key = true\n\n[buildpack]\nid = \"third/party\"\nversion = \"1.0.0\"\nsomething-new = 1\n",
+            _ => "this is {{ not toml\n",
+        };
+        std::fs::write(d.join("buildpack.toml"), text)?;
     }
     std::fs::write(
         ws.join("Cargo.toml"),
